@@ -27,6 +27,8 @@ type hookState struct {
 	roRows   string
 	roSeen   bool
 	prevTree []string
+	cutSeen  bool
+	indexAhead bool
 }
 
 // oracleHook returns the per-call hook that evaluates the property oracles which need the
@@ -46,6 +48,12 @@ func oracleHook(o fsOpts, dir string) func(i int, s *h.Session, st *h.Step) {
 				hs.prevHash = sha256.Sum256(data)
 			}
 			hs.prevTree = nil
+			if st.Call.Method == "@cuttape" {
+				hs.cutSeen = true
+			}
+			if st.Call.Method == "@reopen" && hs.cutSeen && has(st.Call.Args, "index=keep") {
+				hs.indexAhead = true
+			}
 			return
 		}
 		for _, p := range o.oracles {
@@ -760,6 +768,9 @@ func oracleC16(hs *hookState, i int, dir string, s *h.Session, st *h.Step) []str
 	hs.started = true
 	hs.prevLen = int64(len(data))
 	hs.prevHash = sha256.Sum256(data)
+	if hs.indexAhead {
+		return msgs // the index reflects records the crash took away: only non-destructiveness is in scope
+	}
 	if st.Res == "ok" || st.Call.Method != "initialize" {
 		msgs = append(msgs, oracleC01(i, dir, s, st)...)
 	}
